@@ -1,6 +1,7 @@
 import Driver.Ops.Addr
 import Driver.Ops.Cidr
 import Driver.Ops.Conc
+import Driver.Ops.Http
 import Driver.Ops.Jinja
 import Driver.Ops.Lifecycle
 import Driver.Ops.Matcher
@@ -20,6 +21,7 @@ def allOps : List (String × Op) :=
   Driver.Addr.ops ++
   Driver.Cidr.ops ++
   Driver.Conc.ops ++
+  Driver.Http.ops ++
   Driver.Jinja.ops ++
   Driver.Lifecycle.ops ++
   Driver.Matcher.ops ++
